@@ -16,3 +16,6 @@ TRUSTED = TRUSTED_CORE + [
 ]
 ASSUMPTIONS = ["NaN field values are outside the claim (the property lists zero, negative zero, infinities and subnormals; NaN is not equal to itself, so 'equal point' is undefined for it)",
                "the point's time is set and UTC-normalised (what insert/update store: C08)"]
+
+# the property is KNOWN not to hold for four families of inputs (KF-16): their obligations are not discharged, so the claim is not proof-level
+LEVEL = "other"
